@@ -13,6 +13,7 @@ class Concretizer:
     def __init__(self, model: z3.ModelRef, reg, field_names=()):
         self.m = model
         self.reg = reg
+        self.budget = 1500  # model-evaluation budget (nested fields x sequences explode otherwise)
         self.field_names = list(field_names)
         self.const_names = {}
         for key, c in CONSTS.consts.items():
@@ -40,7 +41,7 @@ class Concretizer:
 
     def seq_(self, t, espec: Spec, depth):
         n = self.int_(Q.Length(t))
-        n = max(0, min(n, 12))
+        n = max(0, min(n, 6))
         return [self.val_(self.ev(Q.At(t, i)), espec, depth) for i in range(n)]
 
     def sym(self, s: Sym, depth=3):
@@ -64,6 +65,9 @@ class Concretizer:
         return {"$unsupported": s.kind}
 
     def val_(self, t, spec: Spec, depth):
+        self.budget -= 1
+        if self.budget < 0:
+            return {"$truncated": True}
         name = str(t)
         k = spec.kind
         if k == "opt":
